@@ -42,7 +42,7 @@ package search
 //@   modifies s.started, s.last, s.done
 //@   ensures implies(result1 != nil, result0 == nil)
 //@   ensures implies(old(s.done) && result1 == nil, result0 == nil)
-//@   ensures implies(result1 == nil && result0 != nil, fresh(result0) && mset(s, dmKey(result0)) && unconsumed(old(s.started), old(s.last), dmKey(result0)) && s.started && s.last == dmKey(result0) && !s.done)
+//@   ensures implies(result1 == nil && result0 != nil, fresh(result0) && len(result0.IndexInternalID) > 0 && mset(s, dmKey(result0)) && unconsumed(old(s.started), old(s.last), dmKey(result0)) && s.started && s.last == dmKey(result0) && !s.done)
 //@   ensures implies(result1 == nil && result0 != nil, all(x, string, implies(mset(s, x) && unconsumed(old(s.started), old(s.last), x), x >= dmKey(result0))))
 //@   ensures implies(result1 == nil && result0 == nil, s.done && s.started == old(s.started) && s.last == old(s.last) && all(x, string, implies(mset(s, x), !unconsumed(old(s.started), old(s.last), x))))
 
@@ -55,7 +55,7 @@ package search
 //@   modifies s.started, s.last, s.done
 //@   ensures implies(result1 != nil, result0 == nil)
 //@   ensures implies(old(s.done) && result1 == nil, result0 == nil)
-//@   ensures implies(result1 == nil && result0 != nil, fresh(result0) && mset(s, dmKey(result0)) && dmKey(result0) >= idKey(ID) && s.started && s.last == dmKey(result0) && !s.done)
+//@   ensures implies(result1 == nil && result0 != nil, fresh(result0) && len(result0.IndexInternalID) > 0 && mset(s, dmKey(result0)) && dmKey(result0) >= idKey(ID) && s.started && s.last == dmKey(result0) && !s.done)
 //@   ensures implies(result1 == nil && result0 != nil, all(x, string, implies(mset(s, x) && x >= idKey(ID), x >= dmKey(result0))))
 //@   ensures implies(result1 == nil && result0 == nil, s.done && s.started == old(s.started) && s.last == old(s.last) && all(x, string, implies(mset(s, x), x < idKey(ID))))
 
